@@ -276,7 +276,7 @@ protected:
     for (auto p : exp) {
       Wt coeff(ntow::convert(p.first, overflow));
       if (overflow) {
-        continue;
+        return; // dropping the term would be unsound
       }
 
       variable_t y(p.second);
@@ -290,7 +290,7 @@ protected:
         }
         residual += ntow::convert(*(y_val.number()), overflow) * coeff;
         if (overflow) {
-          continue;
+          return; // dropping the term would be unsound
         }
 
       } else {
@@ -305,7 +305,7 @@ protected:
         } else {
           Wt ymax(ntow::convert(*(y_val.number()), overflow));
           if (overflow) {
-            continue;
+            return; // dropping the term would be unsound
           }
           residual += ymax * coeff;
           terms.push_back({y, ymax});
@@ -367,7 +367,7 @@ protected:
     for (auto p : exp) {
       Wt coeff(ntow::convert(p.first, overflow));
       if (overflow) {
-        continue;
+        return; // dropping the term would be unsound
       }
       if (coeff > Wt(0)) {
         variable_t y(p.second);
@@ -381,7 +381,7 @@ protected:
         } else {
           Wt ymin(ntow::convert(*(y_lb.number()), overflow));
           if (overflow) {
-            continue;
+            return; // dropping the term would be unsound
           }
           exp_ub -= ymin * coeff;
           pos_terms.push_back({{coeff, y}, ymin});
@@ -398,7 +398,7 @@ protected:
         } else {
           Wt ymax(ntow::convert(*(y_ub.number()), overflow));
           if (overflow) {
-            continue;
+            return; // dropping the term would be unsound
           }
           exp_ub -= ymax * coeff;
           neg_terms.push_back({{-coeff, y}, ymax});
